@@ -36,12 +36,17 @@ ASSUMPTIONS = [
     "tableau-defined gates (CliffordGate family) and BooleanHamiltonianGate have matrices defined up to global phase; their pow laws are "
     "checked up to phase",
     "tolerances: 1e-8 for exact algebraic identities, 1e-7 for products of three matrices",
+    "has_stabilizer_effect is checked for soundness only (True => U maps every X_i, Z_i to a signed Pauli string within 5e-5); false "
+    "negatives are counted in the label stabilizer_false_negative_1q (F17, judged out of scope)",
 ]
 SENSITIVITY = [
-    "EigenGate __pow__ drops global shift", "EigenGate equal_up_to_global_phase ignores exponent", "ZPow commutes with any EigenGate",
-    "CZPow.controlled drops non-default control values", "XPow phase_by sign", "CZPow has_stabilizer_effect % 0.5",
-    "CXPow trace_distance_bound cos", "ProductOfSums.expand uses zip", "ControlledGate nested control order", "PeriodicValue period ignored in eq",
-    "XPow pauli_expansion sign", "PhasedXZ inverse axis", "SumOfProducts & order",
+    "EigenGate._with_exponent drops global shift", "EigenGate equal_up_to_global_phase ignores other's exponent",
+    "ZPow commutes with any EigenGate", "CZPow.controlled drops control values", "XPow phase_by sign", "CZPow has_stabilizer_effect % 0.5",
+    "CXPow trace_distance_bound cos", "ProductOfSums.expand zips instead of product", "ControlledGate nested control values in wrong order",
+    "EigenGate equality period 1", "XPow pauli_expansion sign", "PhasedXZ inverse keeps axis",
+    "AbstractControlValues.__and__ concatenates in wrong order", "approx_eq tolerance x1000", "PauliString commutes parity",
+    "ControlledOperation._extend_matrix ignores last control value", "commutes: disjoint check uses subset",
+    "inverse of EigenGate via pow(-1) keeps sign",
 ]
 TOL = 1e-8
 
@@ -649,8 +654,11 @@ def oracle_equality(r):
     sa, sb = tuple(cirq.qid_shape(ga)), tuple(cirq.qid_shape(gb))
     ua, ub = cirq.unitary(ga), cirq.unitary(gb)
     same_shape = sa == sb
-    d_exact = L.max_abs_diff(ua, ub) if same_shape else float("inf")
-    d_phase = L.diff_up_to_phase(ua, ub) if same_shape else float("inf")
+    # the predicates are judged against the matrices: a ququart gate and a two-qubit gate with matrices of equal
+    # size are comparable; only matrices of different sizes can never be equal
+    comparable = np.shape(ua) == np.shape(ub)
+    d_exact = L.max_abs_diff(ua, ub) if comparable else float("inf")
+    d_phase = L.diff_up_to_phase(ua, ub) if comparable else float("inf")
     atol = r["atol"]
     if atol not in (1e-8, 1e-6, 1e-3):
         raise Reject("atol outside the generated set (minimiser)")
